@@ -1,6 +1,7 @@
 """Configuration of ./check C18 (see pylib/props.py)."""
 CFG = dict(
         coq=["props/C18.vo"],
+        tie=["gen/Tie_C18.vo"],
         model_vo=["model/DecRun.vo"],
         extract="Ex_C18",
         level_text="Theorems C18_read_full / C18_copy_n (io.ReadFull and io.CopyN return the same data, error and stream "
@@ -15,11 +16,11 @@ CFG = dict(
                    "re-extracted by the translator (gen/Tie_C18.v: all_full extracted_read_kind over Reader.sites); until that "
                    "tie exists a regression from io.ReadFull to a single Read is caught by the correspondence only.",
         rule="streams: per kind (packfile, pkt-lines, commit, table, block, block index, uint list, profile, str list, float "
-             "list) 4 (quick) / 40 (thorough) streams written by the real encoders (PackfileWriter, Commit.WriteTo, "
+             "list) 10 (quick) / 40 (thorough) streams written by the real encoders (PackfileWriter, Commit.WriteTo, "
              "Table.WriteTo, WriteBlockTo, IndexBlock+WriteTo, list encoders, WritePktLine, TableProfile.WriteTo), the last "
              "of each kind truncated at a random offset; partitions per stream: whole, whole+EOF, one byte per read (own "
              "reader and iotest.OneByteReader), iotest.HalfReader, iotest.DataErrReader, every split point k=0..16 of the "
-             "first 16 bytes (odd k with data+EOF), 6/12 random partitions with chunk sizes 0..9 (0 = empty read) and random "
+             "first 16 bytes (odd k with data+EOF), 8/12 random partitions with chunk sizes 0..9 (0 = empty read) and random "
              "EOF flag. distinct = distinct case text; non-trivial = non-empty stream under a partition other than the "
              "whole buffer",
         trusted=["chunk reader c18ChunkReader (Go) implements lib/Reader.v read; for iotest.HalfReader/DataErrReader the model "
